@@ -252,6 +252,13 @@ class SpecEval:
                 return v
             if name in ("forall", "exists"):
                 return self.quant(name, n)
+            if name in S.FOLDS:
+                fd = S.FOLDS[name]
+                args = [self.ev(a) for a in n.args]
+                sq = self.seq(args[0])
+                f = fold_fn(name, fd)
+                st_ = ops.seq_term(sq, fd["elem"]) if sq.t is None else sq.t
+                return V(fd["acc"], f(st_, args[1].t, coerce(unopt(args[2]), fd["acc"]).t))
             if name in SPECFUNS:
                 args = [self.ev(a) for a in n.args]
                 kw = {k.arg: self.ev(k.value) for k in n.keywords}
@@ -612,6 +619,11 @@ SPECFUNS["spec_varargs"] = _opt_str_fun("spec_varargs")
 SPECFUNS["spec_varkw"] = _opt_str_fun("spec_varkw")
 
 
+def fold_fn(name, fd):
+    es, as_ = sort_of(fd["elem"]), sort_of(fd["acc"])
+    return ops.UF("fold_" + name, z3.SeqSort(es), z3.IntSort(), as_, as_)
+
+
 def in_prefix_fn(elem_sort):
     return ops.UF("in_prefix_%s" % str(elem_sort).replace(" ", "_"), z3.SeqSort(elem_sort), z3.IntSort(), elem_sort, z3.BoolSort())
 
@@ -749,6 +761,8 @@ SPECFUNS["pdirname"] = _uf_spec("pdirname", ["str"], "str")
 SPECFUNS["re_sub"] = _uf_spec("re_sub", ["str", "str", "str"], "str")
 SPECFUNS["str_replace_all"] = _uf_spec("str_replace_all", ["str", "str", "str"], "str")
 SPECFUNS["str_lstrip"] = _uf_spec("str_lstrip", ["str", "str"], "str")
+SPECFUNS["re_matches"] = _uf_spec("re_matches", ["str", "str"], "bool")
+SPECFUNS["re_group"] = _uf_spec("re_group", ["str", "str", "int"], "str")
 
 
 @specfun("attrgetter_of")
